@@ -48,8 +48,9 @@ type syncHandle struct {
 }
 
 type asyncHandle struct {
-	id   int
-	name string
+	id    int
+	name  string
+	meter metric.Meter // the handle the instrument was created through (obtained before or after installation)
 	oi   metric.Int64Observable
 	of   metric.Float64Observable
 }
@@ -180,10 +181,11 @@ func runTrial(k *vf.Case) {
 		mu.Unlock()
 	}
 	createAsyncAndRegister := func(gr *vf.RNG) {
-		m := otel.Meter(meterName(gr.Intn(nMeters)))
+		mname := meterName(gr.Intn(nMeters))
+		m := otel.Meter(mname)
 		id := newID()
 		name := fmt.Sprintf("obs_%d", id)
-		ah := asyncHandle{id: id, name: name}
+		ah := asyncHandle{id: id, name: name, meter: m}
 		var err error
 		var list []metric.Observable
 		if gr.Bool() {
@@ -462,6 +464,48 @@ func runTrial(k *vf.Case) {
 	createSync(pre)
 	last := syncs[len(syncs)-1]
 	last.rec(ctx, 1, metric.WithAttributes(attribute.Int("handle", last.id)))
+	// late registrations that list an observable created after installation (the SDK's own) next to one
+	// created before it (the global API's placeholder), in either order: both must be observed
+	type lateMix struct {
+		late, early string
+		lateFirst   bool
+	}
+	var mixes []lateMix
+	for i, ah := range asyncs {
+		if i >= 6 {
+			break
+		}
+		m := ah.meter
+		lateName := fmt.Sprintf("lateobs_%d", ah.id)
+		lateObs, err := m.Int64ObservableUpDownCounter(lateName)
+		if err != nil {
+			continue
+		}
+		var early metric.Observable = ah.oi
+		if ah.oi == nil {
+			early = ah.of
+		}
+		mix := lateMix{late: lateName, early: ah.name, lateFirst: i%2 == 0}
+		list := []metric.Observable{early, lateObs}
+		if mix.lateFirst {
+			list = []metric.Observable{lateObs, early}
+		}
+		ah := ah
+		if _, err := m.RegisterCallback(func(_ context.Context, o metric.Observer) error {
+			o.ObserveInt64(lateObs, 41)
+			if ah.oi != nil {
+				o.ObserveInt64(ah.oi, 1, metric.WithAttributes(attribute.Bool("late-registration", true)))
+			} else {
+				o.ObserveFloat64(ah.of, 1, metric.WithAttributes(attribute.Bool("late-registration", true)))
+			}
+			return nil
+		}, list...); err != nil {
+			k.Violate("late-registration-refused", "", fmt.Sprintf("%s\nRegisterCallback after installation with a post-install and a pre-install observable of one meter: %v", cfg, err), nil)
+			continue
+		}
+		mixes = append(mixes, mix)
+	}
+	k.C.Count("late_mixed_registrations", int64(len(mixes)))
 	before := map[int]int64{}
 	for _, rh := range regs {
 		before[rh.id] = rh.invocations.Load()
@@ -477,7 +521,7 @@ func runTrial(k *vf.Case) {
 			obsSeen := map[string]bool{}
 			for _, sm := range rm.ScopeMetrics {
 				for _, m := range sm.Metrics {
-					if strings.HasPrefix(m.Name, "obs_") {
+					if strings.HasPrefix(m.Name, "obs_") || strings.HasPrefix(m.Name, "lateobs_") {
 						obsSeen[m.Name] = true
 					}
 					visit := func(set attribute.Set) {
@@ -523,6 +567,12 @@ func runTrial(k *vf.Case) {
 			}
 			if missing > 0 {
 				k.Violate("measurement-after-install-lost", kindNames[ex.kind], fmt.Sprintf("%s\n%d of %d instrument handles are not connected after installation returned, e.g. %s (handle %d)", cfg, missing, len(syncs), ex.name, ex.id), nil)
+			}
+			for _, mx := range mixes {
+				if !obsSeen[mx.late] {
+					k.Violate("observation-after-install-lost", "late registration mixing post- and pre-install observables", fmt.Sprintf("%s\nthe callback observes %s (created after installation, listed first=%v) and %s (created before): %s reported nothing", cfg, mx.late, mx.lateFirst, mx.early, mx.late), nil)
+					break
+				}
 			}
 			for _, rh := range regs {
 				if !rh.unregistered && !rh.rejected && !obsSeen[rh.inst.name] {
